@@ -34,7 +34,12 @@ lines.append("Each sub-agent saw only the text of one property and a scratch "
              "quantifier dimensions of the property and to break the one it "
              "judged least likely to be exercised by a straightforward "
              "randomised test (trailing clauses, error-path clauses, extremes "
-             "of ranges, rarely used options). 100 changes in total; "
+             "of ranges, rarely used options); round 6 (S6-*) required the "
+             "trigger to be an unusual-but-valid REPRESENTATION of ordinary "
+             "data (memory layout, byte order, narrower types, hand-written "
+             "metadata, file naming, symbolic links, URL spellings, file-"
+             "format variants). 120 changes in total, 2 of them rejected as "
+             "outside the input domain (marked); "
              "the 'caught by' column says when a check had to be "
              "strengthened first.\n")
 lines.append("| seeded change | breaks | what it needs to manifest | caught by"
@@ -47,8 +52,10 @@ for mp in sorted(glob.glob(os.path.join(V, "seeded", "*", "meta.json"))):
     np_ = os.path.join(os.path.dirname(mp), "notes.md")
     needs = m.get("needs_to_manifest") or ""
     caught = ", ".join("%s (quick%s)" % (c, "" if r["detected"] else
-                                         " MISSED") for c, r in
+                                         " not detected") for c, r in
                        m["checks_run"].items())
+    if m.get("out_of_domain"):
+        caught = "(outside the input domain) " + caught
     first = "; ".join(r["first_violation"].strip()[:150]
                       for r in m["checks_run"].values()
                       if r["first_violation"])
